@@ -267,6 +267,90 @@ func RunC11(run *vk.Run) {
 			run.Case(fmt.Sprintf("fault:%v:%v:%d:%d:%v", j.combo, j.long, j.k, j.sov, j.kg), true)
 		})
 	}
+	// the operator may spell --root_path / --cert_dir in any way the shell accepts ("./certs", "certs//",
+	// "x/../certs"): object names are what the manifest says they are, at every prefix of the writes
+	for _, layout := range [][2]string{{"./root.crt", "./certs"}, {"root.crt", "certs//signing"}, {"r/../root.crt", "certs/./k"}} {
+		a, err := NewAuthority(Combo{"memkm", "gcsca"})
+		if err != nil {
+			run.Infra(err)
+			return
+		}
+		a.RootPathFlag, a.CertDirFlag = layout[0], layout[1]
+		var writes []Write
+		ok := true
+		for r, args := range [][]string{{"bootstrap", "--timestamp", ts(T0)}, {"rotate", "--timestamp", ts(Tn(1))}, {"rotate", "--timestamp", ts(Tn(2))}} {
+			t := &Tap{}
+			if err := a.Exec(t, args...); err != nil {
+				run.Violation("layout-command-fails", fmt.Sprintf("command %d (%s) fails on a store laid out with --root_path=%q --cert_dir=%q: %v", r+1, args[0], layout[0], layout[1], err), map[string]any{"layout": layout})
+				ok = false
+				break
+			}
+			writes = append(writes, t.Writes...)
+		}
+		if ok {
+			objs := map[string][]byte{}
+			for k, w := range writes {
+				objs[bucket+"/"+w.Object] = w.Data
+				if err := StoreConsistentLayout(objs, Tn(2), layout[0], layout[1]); err != nil {
+					run.Violation("prefix-inconsistent:layout", fmt.Sprintf("after the first %d object writes (last: %s) of bootstrap + 2 rotations with --root_path=%q --cert_dir=%q the store is inconsistent: %v", k+1, w.Object, layout[0], layout[1], err), map[string]any{"layout": layout, "prefix": k + 1})
+					break
+				}
+			}
+		}
+		a.Close()
+		run.Case(fmt.Sprintf("layout:%v", layout), true)
+	}
+	// a first bootstrap of an empty store in which the k-th interface call fails (every call position):
+	// every prefix of the writes it actually committed is consistent (a later bootstrap --overwrite over a
+	// populated store is outside the statement: it replaces root and certificates object by object)
+	{
+		type bjob struct {
+			combo Combo
+			k     int
+		}
+		var bjobs []bjob
+		for _, combo := range combos {
+			a, err := NewAuthority(combo)
+			if err != nil {
+				run.Infra(err)
+				return
+			}
+			t := &Tap{}
+			if err := a.Exec(t, "bootstrap", "--timestamp", ts(T0)); err != nil {
+				run.Infra(err)
+				return
+			}
+			a.Close()
+			for k := 1; k <= len(t.Calls); k++ {
+				bjobs = append(bjobs, bjob{combo, k})
+			}
+		}
+		parallel(len(bjobs), func(i int) {
+			j := bjobs[i]
+			a, err := NewAuthority(j.combo)
+			if err != nil {
+				run.Infra(err)
+				return
+			}
+			defer a.Close()
+			ft := &Tap{FailAt: j.k}
+			ferr := a.Exec(ft, "bootstrap", "--timestamp", ts(T0))
+			failed := "?"
+			if j.k <= len(ft.Calls) {
+				failed = ft.Calls[j.k-1]
+			}
+			objs := map[string][]byte{}
+			for k, w := range ft.Writes {
+				objs[bucket+"/"+w.Object] = w.Data
+				if err := StoreConsistent(objs, Tn(1)); err != nil {
+					run.Violation("prefix-inconsistent:bootstrap-fault:"+classOf(w.Object), fmt.Sprintf("after the first %d committed object writes (last: %s) of a first bootstrap whose call %d [%s] failed (result: %v) the store is inconsistent: %v (%v)", k+1, w.Object, j.k, failed, ferr, err, j.combo),
+						map[string]any{"combo": j.combo.String(), "fail_at": j.k, "failed_call": failed, "prefix": k + 1})
+					break
+				}
+			}
+			run.Case(fmt.Sprintf("bootstrap-fault:%v:%d", j.combo, j.k), true)
+		})
+	}
 	// a long history: the manifest grows by one entry per rotation; after every command the live
 	// store must still load through a fresh authority instance
 	{
